@@ -944,7 +944,36 @@ pub fn observe_doc(case: &DocCase) -> Obs {
             Err(e) => obs.push((format!("diagnostic:{label}"), render_diag(e, source))),
         }
     }
+    // what `wac compose` does by default: encode and validate (the diagnostic of a failed
+    // validation is part of the output)
+    for (label, define) in [("validated-defined", true), ("validated-imported", false)] {
+        let r = resolution.encode(EncodeOptions {
+            define_components: define,
+            validate: true,
+            processor: None,
+        });
+        match r {
+            Ok(b) => obs.push((label.into(), format!("ok:{}:{}", b.len(), sha256_hex(&b)))),
+            Err(e) => obs.push((format!("diagnostic:{label}"), render_diag(e, source))),
+        }
+    }
     obs
+}
+
+/// wasmparser prints resource ids with a process-global counter (`globally_unique_id: 7`).
+fn mask_global_ids(s: &str) -> String {
+    let mut out = String::with_capacity(s.len());
+    let mut rest = s;
+    let key = "globally_unique_id: ";
+    while let Some(pos) = rest.find(key) {
+        let (head, tail) = rest.split_at(pos + key.len());
+        out.push_str(head);
+        let digits = tail.chars().take_while(|c| c.is_ascii_digit()).count();
+        out.push('N');
+        rest = &tail[digits..];
+    }
+    out.push_str(rest);
+    out
 }
 
 // ---------------------------------------------------------------------------
@@ -1112,6 +1141,12 @@ pub fn run(run: &mut Run) {
             let cases = POOL.get_or_init(|| {
                 let mut v = shipped_cases().clone();
                 v.extend(crate::gen::handwritten_cases());
+                // a composition whose validated encoding fails with a message that names a
+                // resource id (C16-only: it does not validate, so it is no enumeration seed)
+                let mut extra = crate::gen::handwritten_cases().remove(0);
+                extra.label = "doc:validation-message-with-resource-id".into();
+                extra.source = "package test:doc-global-id;\nlet i1 = new odd:res-share { ... };\nlet i2 = new odd:res-share { \"x:y/b@1.0.0\": i1[\"q:r/a@0.2.1\"], ... };\n".into();
+                v.push(extra);
                 v
             });
             let c = cases[t.index(cases.len())].clone();
@@ -1215,8 +1250,16 @@ pub fn run(run: &mut Run) {
                 Some((h0, which0, r)) => {
                     if let Some(diff) = first_difference(r, &obs) {
                         let comp = component_of(&diff.0);
+                        // a difference that is only wasmparser's process-global resource id
+                        // inside a validation message is its own class (one class for all
+                        // workload families and encode modes)
+                        let global_id_only = diff.1 != diff.2 && mask_global_ids(&diff.1) == mask_global_ids(&diff.2);
                         run.violate(
-                            format!("differs:{fam_name}:{comp}"),
+                            if global_id_only {
+                                "differs:validation-message:wasmparser-global-resource-id".to_string()
+                            } else {
+                                format!("differs:{fam_name}:{comp}")
+                            },
                             format!(
                                 "observation `{}` differs between hash seed {h0:#x} ({which0}) and hash seed {h:#x} ({which}): `{}` vs `{}`",
                                 diff.0,
